@@ -1,0 +1,29 @@
+//go:build verif
+
+package generator
+
+import "context"
+
+// Verification hooks for properties C45 and C39 (thin wrappers, no behaviour
+// of their own).
+
+// VerifCheckProtocols runs one scheduler check, exactly what the goroutine
+// started by StartScheduler does every checkTick.
+func (s *Scheduler) VerifCheckProtocols() {
+	s.checkProtocols()
+}
+
+// VerifCompute registers a worker function with the scheduler.
+func (s *Scheduler) VerifCompute(workerFn func(context.Context)) {
+	s.compute(workerFn)
+}
+
+// VerifState reads, under the work mutex, whether the scheduler is working,
+// how many cancel functions of live worker contexts it holds and how many
+// worker functions are registered.
+func (s *Scheduler) VerifState() (isWorking bool, liveStops int, workers int) {
+	s.workMutex.Lock()
+	defer s.workMutex.Unlock()
+
+	return s.state == working, len(s.stops), len(s.workers)
+}
